@@ -224,6 +224,9 @@ type World struct {
 	YAML   string
 	words  map[string]string // canonical word per letter set
 	style  int
+	// forwarded-host claims (send)
+	nsend     int
+	seenHosts []string
 	byDom  []bool // per service: policy written as domains instead of addresses
 }
 
@@ -579,8 +582,29 @@ type resp struct {
 // send delivers one GET. transport "inproc" calls the handler; "socket" writes the request on a TCP connection
 // to the proxy's listener (origin-form), "socket-abs" uses an absolute-form target with a decoy Host header.
 func (w *World) send(transport, host, target string, cookies []*http.Cookie, decoy string) (*resp, error) {
+	// what a client may claim about the host: routing, policy and session binding go by the Host the request was
+	// sent to, whatever X-Forwarded-Host / Forwarded say (every second request names a host this world has served
+	// before - usually one of another route - or a stranger)
+	w.nsend++
+	claim := ""
+	if w.nsend%2 == 0 {
+		claim = "stranger.sso.test"
+		if len(w.seenHosts) > 0 && w.nsend%10 != 0 {
+			claim = w.seenHosts[(w.nsend/2*7919)%len(w.seenHosts)]
+		}
+	}
+	if len(w.seenHosts) < 64 {
+		w.seenHosts = append(w.seenHosts, host)
+	} else {
+		w.seenHosts[w.nsend%64] = host
+	}
 	if transport == "inproc" {
-		rq := world.NewReq("GET", host, target, http.Header{}, cookies, "")
+		hd := http.Header{}
+		if claim != "" {
+			hd.Set("X-Forwarded-Host", claim)
+			hd.Set("Forwarded", "host="+claim)
+		}
+		rq := world.NewReq("GET", host, target, hd, cookies, "")
 		rs := world.Do(w.P.Handler, rq)
 		if rs.Panicked {
 			return &resp{status: 0, header: http.Header{}}, nil
@@ -605,6 +629,9 @@ func (w *World) send(transport, host, target string, cookies []*http.Cookie, dec
 			cs = append(cs, c.Name+"="+c.Value)
 		}
 		fmt.Fprintf(&b, "Cookie: %s\r\n", strings.Join(cs, "; "))
+	}
+	if claim != "" {
+		fmt.Fprintf(&b, "X-Forwarded-Host: %s\r\nForwarded: host=%s\r\n", claim, claim)
 	}
 	b.WriteString("User-Agent: verif-rt\r\nAccept: */*\r\nConnection: close\r\n\r\n")
 	if _, err := conn.Write([]byte(b.String())); err != nil {
